@@ -57,6 +57,40 @@ class Model:
                                               lambda s: s == 0)
         return self._langs[k]
 
+    def comment_lang(self):
+        """language of the raw lines dropped by _skip_useless_lines as comments (str twin)"""
+        if ('comment',) in self._langs:
+            return self._langs[('comment',)]
+        f = self.src.func('deb822:Deb822._skip_useless_lines')
+        loops = [s for s in f.node.body if isinstance(s, ast.For)]
+        if len(loops) != 1:
+            raise AnalysisError('%s: expected one loop' % f.site)
+        var = norm(loops[0].target)
+        tests = []
+
+        def scan(stmts, in_str_branch):
+            for st in stmts:
+                if isinstance(st, ast.If):
+                    if norm(st.test) == 'isinstance(%s, bytes)' % var:
+                        scan(st.orelse, True)
+                        continue
+                    if norm(st.test) == 'at_beginning':
+                        continue
+                    if any(isinstance(b, ast.Continue) for b in st.body) and in_str_branch:
+                        tests.append(st.test)
+                    else:
+                        scan(st.body, in_str_branch)
+                        scan(st.orelse, in_str_branch)
+        scan(loops[0].body, False)
+        if not tests:
+            raise AnalysisError('%s: comment test not found' % f.site)
+        lang = None
+        for t in tests:
+            pl = strlang.pred_lang(t, var, self.alpha)
+            lang = pl if lang is None else lang.union(pl)
+        self._langs[('comment',)] = lang
+        return lang
+
     # -- reader cascade of _internal_parser
     def _cascade(self):
         f = self.src.func('deb822:Deb822._internal_parser')
